@@ -15,7 +15,7 @@ func init() {
 		ID:        "C16",
 		Title:     "A missing spec means `[OPTIONS] ARG1 ARG2 ...`",
 		Technique: "metamorphic runtime monitor: twin real applications, one declared without a spec and one with the explicit spec, run on the same command lines; usage line read back from the rendered help",
-		Rule: "random declaration sets (0-5 options of every kind, 0-3 arguments in random declaration order, some arguments backed by a set environment variable); twin A has no spec, twin B the explicit '[OPTIONS] ARG1 ARG2 ...' ('[OPTIONS]' omitted without options); " +
+		Rule: "random declaration sets (0-5 options of every kind, 0-3 arguments in random declaration order with names that are prefixes/suffixes of one another, some arguments backed by a set environment variable, arguments declared before or after the options, optionally a version flag as the only or an additional option); twin A has no spec, twin B the explicit '[OPTIONS] ARG1 ARG2 ...' ('[OPTIONS]' omitted without options); " +
 			"command lines derived from that spec (all spellings, shuffled option runs) and mutated; the outcome (acceptance, every bound value) must be identical - also on a second Run of the same two application objects with another command line - and the usage line of both helps must read " +
 			"'Usage: app <that spec>'. The reference verdict is also compared (as in C01). non-trivial = >=1 declared element and >=1 token; distinct by (decl, argv).",
 		Assumptions: []string{"the usage line is the first line starting with 'Usage:' of the help printed for --help"},
@@ -45,16 +45,35 @@ func runC16(c *core.Ctx) {
 	for _, a := range p.Args {
 		a.EnvSet = pi%3 == 0 && c.R.Intn(2) == 0 // a set environment variable must not change the generated spec
 	}
-	expl := gen.ImplicitProg(p) // p.Spec == "" -> explicit twin with AST
-	argv := gen.Argv(c.R, expl, gen.Cfg{})
+	// argument names: some are suffixes / prefixes of one another
+	names := []string{"X", "Y", "Z_2", "SRC", "SRC_FILE", "FILE", "C", "DST", "DST2", "S"}
+	c.R.Shuffle(len(names), func(i, j int) { names[i], names[j] = names[j], names[i] })
+	for i, a := range p.Args {
+		a.Name = names[i]
+	}
+	version := pi%5 == 1  // the application declares a version flag (an option like any other for the generated spec)
+	argsFirst := pi%4 == 2 // arguments declared before the options
+	model := p            // what the reference sees: the version flag is an option of the root
+	if version {
+		model = &Prog{Opts: append([]*OptDecl{{Names: []string{"V", "version"}, Flag: true}}, p.Opts...), Args: p.Args}
+	}
+	explModel := gen.ImplicitProg(model)
+	expl := &Prog{Opts: p.Opts, Args: p.Args, Spec: explModel.Spec, AST: explModel.AST}
+	argv := gen.Argv(c.R, explModel, gen.Cfg{})
 	if hasHelp(argv) {
 		return
 	}
+	single := func(q *Prog) *drive.App {
+		a := drive.Single(q)
+		a.Version, a.ArgsFirst = version, argsFirst
+		return a
+	}
+	versionRequest := version && len(argv) > 0 && (argv[0] == "-V" || argv[0] == "--version")
 	d := descOf(expl, argv)
-	d.Note = "twin without spec vs explicit spec"
+	d.Note = fmt.Sprintf("twin without spec vs explicit spec (version flag declared: %v, arguments declared first: %v)", version, argsFirst)
 	c.Journal(d)
-	oa := drive.Run(drive.Single(p), argv)
-	ob := drive.Run(drive.Single(expl), argv)
+	oa := drive.Run(single(p), argv)
+	ob := drive.Run(single(expl), argv)
 	c.LibDone()
 	c.Eval()
 	ka, kb := drive.OutcomeKey(p, oa), drive.OutcomeKey(p, ob)
@@ -65,8 +84,8 @@ func runC16(c *core.Ctx) {
 		c.Violation("the command without spec and its twin with the explicit spec differ", map[string]interface{}{"no_spec": ka, "explicit": kb}, nil)
 		return
 	}
-	if !FoldedEq(expl, argv) {
-		if v, _ := decideBoth(expl, BuildNFA(expl, false), BuildNFA(expl, true), argv); !v.Unclaimed && v.Accept != oa.Accepted() {
+	if !FoldedEq(explModel, argv) && !versionRequest {
+		if v, _ := decideBoth(explModel, BuildNFA(explModel, false), BuildNFA(explModel, true), argv); !v.Unclaimed && v.Accept != oa.Accepted() {
 			c.Violation(fmt.Sprintf("reference accept=%v for the implicit spec, library accept=%v", v.Accept, oa.Accepted()), nil, nil)
 			return
 		}
@@ -78,11 +97,11 @@ func runC16(c *core.Ctx) {
 	}
 	if c.Index%4 == 1 {
 		// the same two application objects run twice: the generated spec must not drift from one Run to the next
-		argv2 := gen.Argv(c.R, expl, gen.Cfg{})
+		argv2 := gen.Argv(c.R, explModel, gen.Cfg{})
 		if !hasHelp(argv2) {
 			drive.Quiet()
 			c.Journal(CaseDesc{Decl: d.Decl, Spec: expl.Spec, Argv: argv2, Note: fmt.Sprintf("second Run on the same application objects, after %q", argv)})
-			ba, bb := drive.Build(drive.Single(p)), drive.Build(drive.Single(expl))
+			ba, bb := drive.Build(single(p)), drive.Build(single(expl))
 			a1, b1 := drive.OutcomeKey(p, ba.Run(argv)), drive.OutcomeKey(p, bb.Run(argv))
 			a2, b2 := drive.OutcomeKey(p, ba.Run(argv2)), drive.OutcomeKey(p, bb.Run(argv2))
 			c.LibDone()
@@ -96,8 +115,8 @@ func runC16(c *core.Ctx) {
 	}
 	if c.Index%10 == 0 {
 		c.Journal(CaseDesc{Decl: d.Decl, Spec: expl.Spec, Argv: []string{"--help"}, Note: "usage line of both twins"})
-		ha := usageLine(drive.Run(drive.Single(p), []string{"--help"}).Stderr)
-		hb := usageLine(drive.Run(drive.Single(expl), []string{"--help"}).Stderr)
+		ha := usageLine(drive.Run(single(p), []string{"--help"}).Stderr)
+		hb := usageLine(drive.Run(single(expl), []string{"--help"}).Stderr)
 		want := strings.TrimRight("Usage: app "+expl.Spec, " ")
 		c.LibDone()
 		c.Eval()
